@@ -120,6 +120,33 @@ fn build(case: &Case) -> Result<Vec<u8>, String> {
     }
 }
 
+/// the file path of the API: `DictionaryBuilder::build(path)` (temporary file + rename) and `Trie::open(path)`;
+/// returns the bytes found at `path` and what the opened dictionary says
+#[allow(clippy::type_complexity)]
+fn build_and_open(case: &Case, probe: &[u16]) -> Result<(Vec<u8>, [String; 5], Vec<Ph>, bool, usize), String> {
+    let dir = tempfile::tempdir().map_err(|e| e.to_string())?;
+    let path = dir.path().join("dict.dat");
+    let r = catch_unwind(AssertUnwindSafe(|| {
+        let mut b = TrieBuilder::new();
+        b.set_info(info_of(case)).map_err(|e| e.to_string())?;
+        for e in &case.ents {
+            b.insert(&syls(&e.key), to_phrase(&e.ph)).map_err(|e| e.to_string())?;
+        }
+        b.build(&path).map_err(|e| e.to_string())?;
+        let bytes = std::fs::read(&path).map_err(|e| e.to_string())?;
+        let leftovers = std::fs::read_dir(dir.path()).map_err(|e| e.to_string())?.count();
+        let t = Trie::open(&path).map_err(|e| e.to_string())?;
+        let i = t.about();
+        let k = syls(probe);
+        let got = t.lookup_all_phrases(&k.as_slice(), LookupStrategy::Standard).iter().map(of_phrase).collect();
+        Ok((bytes, [i.name, i.copyright, i.license, i.version, i.software], got, t.path() == Some(path.as_path()), leftovers))
+    }));
+    match r {
+        Ok(x) => x,
+        Err(_) => Err("panic".to_string()),
+    }
+}
+
 /// reference map: key -> phrases in insertion order, a re-inserted phrase replaces in place
 fn ref_map(ents: &[Ent]) -> BTreeMap<Vec<u16>, Vec<Ph>> {
     let mut m: BTreeMap<Vec<u16>, Vec<Ph>> = BTreeMap::new();
@@ -1348,6 +1375,7 @@ fn main() {
         out.rec("codec xcheck model-writer-unavailable => fail");
     }
     let mut shape_files = 0u64;
+    let mut built_files = 0u64;
     let mut x_identical = 0u64;
     let mut x_different = 0u64;
 
@@ -1374,6 +1402,29 @@ fn main() {
         match build(case) {
             Ok(b2) if b2 == bytes => {}
             _ => fail(&mut out, &mut st, "a second write of the same input gives different bytes", case),
+        }
+        // the file path of the API on every seventh input: build(path) writes the same bytes, Trie::open reads them back
+        if i % 7 == 3 || i >= first_shape {
+            let probe: Vec<u16> = case.ents.first().map(|e| e.key.clone()).unwrap_or_default();
+            match build_and_open(case, &probe) {
+                Ok((fb, about, got, path_ok, files)) => {
+                    built_files += 1;
+                    if fb != bytes {
+                        fail(&mut out, &mut st, "build(path) leaves other bytes in the file than write() produces", case);
+                    }
+                    if about != case.info {
+                        fail(&mut out, &mut st, "Trie::open(path).about() differs from the metadata written", case);
+                    }
+                    let rm = ref_map(&case.ents);
+                    if !matches_groups(&got, &[rm.get(&probe).unwrap_or(&vec![])]) {
+                        fail(&mut out, &mut st, &format!("Trie::open(path): lookup({}) = {}", key_s(&probe), phs_s(&got)), case);
+                    }
+                    if !path_ok || files != 1 {
+                        fail(&mut out, &mut st, &format!("build(path)/open(path): path() wrong or {} files left in the directory", files), case);
+                    }
+                }
+                Err(e) => fail(&mut out, &mut st, &format!("build(path) / Trie::open(path) fails: {}", e), case),
+            }
         }
         check_reader(&mut out, &mut st, &mut rng, case, &bytes, "TrieBuilder::write", true);
         if let Some(mb) = &model_bytes {
@@ -1428,6 +1479,7 @@ fn main() {
     out.stat("max_index_records", st.max_records);
     out.stat("max_data_begin", st.max_data_begin);
     out.stat("extreme_shape_files", shape_files);
+    out.stat("files_via_build_path_and_open_path", built_files);
     out.stat("first_n_lookups", st.first_n);
     out.stat("first_n_lookups_shorter_than_all", st.first_n_cut);
     out.stat("first_phrase_lookups", st.first_phrase);
